@@ -32,7 +32,36 @@ def dump_mir(tag):
 TV_PROPS = {"C05", "C07", "C10", "C11"}   # properties whose queries rest on summaries of DnsRecord / Probe methods
 
 
-def translator_validation(scratch, mir, seed, log_dir):
+M64 = (1 << 64) - 1
+
+
+def vectors_from_models(results):
+    """Counterexamples of failed queries over a DnsRecord (variables r_ttl, r_created, o_ttl, o_created, now...)
+    as extra translator-validation vectors: the compiled functions are run on exactly these inputs."""
+    import re
+    out = []
+    for b in results:
+        if b.get("status") != "failed":
+            continue
+        for w in b.get("witness", [])[:4]:
+            pairs = re.findall(r"(\w+)=(\d+)", w.get("model", ""))
+            kv = dict(pairs)
+            nows = [int(v) for k, v in pairs if re.fullmatch(r"now\d*", k)] or [0]
+            if "r_ttl" in kv or "r_created" in kv:
+                ttl, c = int(kv.get("r_ttl", 0)), int(kv.get("r_created", 0))
+            elif "ttl" in kv:
+                ttl, c = int(kv["ttl"]), int(kv.get("created", nows[0]))   # DnsRecord::new(now): created = now
+            else:
+                continue
+            for k, now in enumerate(nows[:4]):
+                out.append({"ttl": ttl, "created": c, "expires": (c + 1000 * ttl) & M64, "refresh": (c + 800 * ttl) & M64, "now": now,
+                            "ttl2": int(kv.get("o_ttl", 0)), "created2": int(kv.get("o_created", 0)), "pct": (100, 80, 85, 90)[k], "query": b["query"]})
+            if len(nows) == 1:
+                out.append(dict(out[-1], pct=80))
+    return out[:24]
+
+
+def translator_validation(scratch, mir, seed, log_dir, extra=None):
     """DESIGN 2.6b: SMT summaries vs the natively compiled functions on concrete vectors."""
     t0 = time.time()
     fail = lambda why: {"engine": "B:mirslice/z3+cvc5", "query": "b_translator_validation", "status": "inconclusive", "detail": why,
@@ -40,7 +69,11 @@ def translator_validation(scratch, mir, seed, log_dir):
     tvd = os.path.join(scratch, "tv")
     os.makedirs(tvd, exist_ok=True)
     tool = os.path.join(VERIF, "mirslice", "tv.py")
-    r = subprocess.run(["python3-vt", tool, "gen", str(seed), tvd], capture_output=True, text=True)
+    gen_cmd = ["python3-vt", tool, "gen", str(seed), tvd]
+    if extra:
+        json.dump(extra, open(os.path.join(tvd, "extra.json"), "w"))
+        gen_cmd.append(os.path.join(tvd, "extra.json"))
+    r = subprocess.run(gen_cmd, capture_output=True, text=True)
     if r.returncode != 0:
         return fail("vector generation failed: " + r.stderr[-200:])
     for mod in ("dns_parser", "service_info"):
@@ -60,6 +93,15 @@ def translator_validation(scratch, mir, seed, log_dir):
         return fail("comparison crashed: " + (r.stderr or r.stdout)[-300:])
     res = json.load(open(out))
     res["wall_s"] = round(time.time() - t0, 1)
+    if extra:
+        n0 = res.get("vectors", 0) - len(extra)
+        rows = {}
+        for l in open(nat, errors="replace"):
+            if "TV|" in l:
+                p = l[l.index("TV|"):].strip().split("|")
+                if int(p[2]) >= n0:
+                    rows.setdefault(int(p[2]) - n0, []).append(f"{p[1]} -> " + " ".join(p[3:]))
+        res["extra"] = [{"vector": e, "native": rows.get(i, []), "encoding_agrees": (n0 + i) not in res.get("mismatch_indices", [])} for i, e in enumerate(extra)]
     return res
 
 
@@ -86,7 +128,19 @@ def run_property(prop, tier, seed, log_dir, only=None):
                      "queries": 0, "nontrivial": 0, "solver_s": 0.0, "functions": [], "assumptions": []}]
         data = json.load(open(out))
         if prop in TV_PROPS and not only:
-            data["results"].append(translator_validation(s, mir, seed, log_dir))
+            extra = vectors_from_models(data["results"])
+            tv = translator_validation(s, mir, seed, log_dir, extra)
+            data["results"].append(tv)
+            # replay before reporting: a counterexample counts only if the compiled functions behave at its inputs
+            # as the encoding says (otherwise the encoding is wrong for this tree: no verdict)
+            for b in data["results"]:
+                if b.get("status") == "failed" and b is not tv:
+                    mine = [e for e in tv.get("extra", []) if e["vector"].get("query") == b["query"]]
+                    if tv["status"] != "held":
+                        b["status"] = "inconclusive"
+                        b["detail"] = "counterexample not confirmed natively (translator validation: " + tv["detail"][:160] + "); was: " + b["detail"][:200]
+                    elif mine:
+                        b["native_replay"] = mine
     finally:
         overlay.remove_scratch(s)
     res = data["results"]
@@ -102,6 +156,11 @@ def run_property(prop, tier, seed, log_dir, only=None):
                 for w in b.get("witness", []):
                     f.write(f"check: {w['check']}\nmodel: {w['model']}\n\n")
                 f.write("functions: " + ", ".join(b.get("functions", [])) + "\n")
+                for e in b.get("native_replay", []):
+                    f.write("\nnative replay (cargo test of the working tree, dev profile) at " + json.dumps({k: v for k, v in e["vector"].items() if k != "query"}) + ":\n")
+                    f.write("  encoding agrees with the compiled functions: " + str(e["encoding_agrees"]) + "\n")
+                    for row in e["native"]:
+                        f.write("  " + row + "   (return, ttl, created, expires, refresh after the call)\n")
             b["replay_path"] = p
         print(f"[{prop}] {b['query']}: {b['status']} {b['detail'][:200]} ({b.get('wall_s', 0)} s, {b['queries']} queries)", flush=True)
     return res
